@@ -25,4 +25,5 @@ Definition run (op : Z) (arg : V) : V :=
   if op =? 39 then run_access arg else
   if op =? 40 then run_lookup arg else
   if op =? 41 then run_tracks arg else
+  if op =? 42 then run_ctor arg else
   fail EOther.
